@@ -184,3 +184,6 @@ PROOFS = [
      'replace': [ADV, 'Pistache_match_raw'],
      'harness': 'void h_CacheControl_parseRaw(void) { struct Pistache_Http_Header_CacheControl *a0; char *a1; size_t a2; Pistache_Http_Header_CacheControl_parseRaw(a0, a1, a2); }\n'},
 ]
+# thorough tier: write/parse round trip of the real code for every directive and several delta-seconds, every Connection and Encoding value
+NATIVE_SWEEPS = [{'name': 'header_roundtrip', 'driver': 'hdr_rt', 'props': ['C16'], 'what': 'CacheControl/Connection/ContentEncoding write + parseRaw',
+                  'argvs': [['cachecontrol', d, x] for d in range(12) for x in (0, 1, 7, 9, 10, 3600, 2147483647)] + [['connection', c] for c in range(3)] + [['encoding', e] for e in range(6)]}]
